@@ -514,7 +514,12 @@ impl World {
         }
         let mut ma = csl::MultiAsset::new();
         for a in assets {
-            ma.set_asset(&self.policy(a.p), &csl::AssetName::new(a.n.clone()).unwrap(), &csl::BigNum::from(a.q));
+            let name = csl::AssetName::new(a.n.clone()).unwrap();
+            if a.q % 3 == 0 {
+                // a quantity that was assigned before and is corrected now: the last assignment counts
+                ma.set_asset(&self.policy(a.p), &name, &csl::BigNum::from(a.q + 1));
+            }
+            ma.set_asset(&self.policy(a.p), &name, &csl::BigNum::from(a.q));
         }
         Some(ma)
     }
